@@ -30,6 +30,8 @@ type Cell struct {
 	Chain   string   `json:"chain,omitempty"`
 	Sender  string   `json:"sender,omitempty"`
 	Des     string   `json:"des,omitempty"`
+	Pay     string   `json:"pay,omitempty"`
+	Adm     string   `json:"adm,omitempty"`
 	H       string   `json:"h,omitempty"`
 	Prod    string   `json:"prod,omitempty"`
 	Breaker bool     `json:"breaker"`
@@ -37,6 +39,7 @@ type Cell struct {
 	Off     []string `json:"off"`
 	Pm      string   `json:"pm,omitempty"`
 	Hook    string   `json:"hook,omitempty"`
+	Hole    bool     `json:"hole"`
 	App     string   `json:"app,omitempty"`
 }
 
@@ -103,6 +106,11 @@ func (f *Fix) signer(name string) sdk.AccAddress {
 		return sim.ModAddr("vaultV1")
 	case "admin":
 		return f.Admin
+	case "newadmin":
+		return sim.Addr("newadmin")
+	case "default":
+		a, _ := sdk.AccAddressFromBech32(esmtypes.DefaultAdmin[0])
+		return a
 	case "user":
 		return f.Other
 	case "contract":
@@ -173,11 +181,13 @@ func key(c Cell) string { b, _ := json.Marshal(c); return string(b) }
 func (r *runner) execState(s *sim.Env, root int, cells []Cell) {
 	f := r.f
 	// ---------------- owner matrix: the owner's own attempt first (non-vacuity reference), then the others
-	var own, priv, kill, ctl, hook, auc []Cell
+	var own, priv, kill, ctl, hook, auc, open []Cell
 	for _, c := range cells {
 		switch c.M {
 		case "own":
 			own = append(own, c)
+		case "open":
+			open = append(open, c)
 		case "priv":
 			priv = append(priv, c)
 		case "kill":
@@ -207,8 +217,23 @@ func (r *runner) execState(s *sim.Env, root int, cells []Cell) {
 			args["ref"] = id
 		}
 	}
+	// ---------------- opening messages by third parties, on the state as it is and after an older position was removed
+	for _, c := range open {
+		e := s.Branch()
+		holed := false
+		if c.Hole {
+			holed = f.MakeHole(e, c.Msg)
+		}
+		sg := f.signer(c.Signer)
+		msg := builders[c.Msg](f, e, sg, sg, "oracle", Ax{"small", "home"})
+		pre, vpre := e.Digest(), f.HoldersView(e)
+		res, dirty := deliverObserved(e, msg, pre)
+		post, vpost := e.Digest(), f.HoldersView(e)
+		r.lg.Add(root, r.run, "Open", map[string]interface{}{"m": c.M, "msg": c.Msg, "signer": c.Signer, "hole": c.Hole}, rj(res),
+			map[string]interface{}{"pre": pre, "post": post, "vpre": vpre, "vpost": vpost, "dirty": dirty, "holed": holed})
+	}
 	// ---------------- privileged matrix: reference = the contract designated for the variant, on comdex-1
-	isRef := func(c Cell) bool { return c.Chain == "comdex-1" && c.Sender == c.Des }
+	isRef := func(c Cell) bool { return c.Chain == "comdex-1" && c.Sender == c.Des && (c.Pay == "na" || c.Pay == "caller") }
 	sort.SliceStable(priv, func(a, b int) bool { return isRef(priv[a]) && !isRef(priv[b]) })
 	ref = map[string]int{}
 	for _, c := range priv {
@@ -217,23 +242,40 @@ func (r *runner) execState(s *sim.Env, root int, cells []Cell) {
 		// the two variants that move the caller's funds need the caller to own something / the collector to be funded
 		fund(e, sender, coin("uharbor", 100*unit))
 		fundModule(e, "collectorV1", coin("ucmst", 50*unit))
+		var named sdk.AccAddress
+		switch c.Pay {
+		case "caller":
+			named = sender
+		case "designated":
+			named = f.SenderAddr(c.Chain, c.Des)
+		case "third":
+			named = f.LP
+		}
+		if named != nil {
+			fund(e, named, coin("uharbor", 100*unit))
+		}
 		pre := e.Digest()
-		res := f.Dispatch(e, c.Chain, sender, c.V)
+		res := f.Dispatch(e, c.Chain, sender, named, c.V)
 		post := e.Digest()
-		args := map[string]interface{}{"m": c.M, "v": c.V, "chain": c.Chain, "sender": c.Sender, "ref": ref[c.V]}
+		args := map[string]interface{}{"m": c.M, "v": c.V, "chain": c.Chain, "sender": c.Sender, "des": c.Des, "pay": c.Pay, "ref": ref[c.V]}
 		id := r.lg.Add(root, r.run, "Priv", args, rj(res), map[string]interface{}{"pre": pre, "post": post})
 		if isRef(c) {
 			ref[c.V] = id
 			args["ref"] = id
 		}
 	}
+	// kill switch under every state of the admin parameter; the parameter is changed through the params module's real
+	// parameter-change proposal handler (what a passed governance proposal executes)
 	for _, c := range kill {
 		for _, enable := range []bool{true, false} {
 			e := s.Branch()
+			if err := f.SetAdminState(e, c.Adm); err != nil {
+				panic(fmt.Sprintf("admin state %s: %v", c.Adm, err))
+			}
 			pre := e.Digest()
 			res := e.Deliver(esmtypes.NewMsgKillRequest(f.signer(c.Sender), esmtypes.KillSwitchParams{AppId: f.AppHarbor, BreakerEnable: enable}))
 			post := e.Digest()
-			r.lg.Add(root, r.run, "Kill", map[string]interface{}{"m": c.M, "sender": c.Sender, "enable": enable}, rj(res), map[string]interface{}{"pre": pre, "post": post})
+			r.lg.Add(root, r.run, "Kill", map[string]interface{}{"m": c.M, "adm": c.Adm, "sender": c.Sender, "enable": enable}, rj(res), map[string]interface{}{"pre": pre, "post": post})
 		}
 	}
 	// ---------------- control matrix: group by (app, breaker, esm) so that the controls are set up once per group
@@ -319,13 +361,17 @@ func (r *runner) execState(s *sim.Env, root int, cells []Cell) {
 				PriceActive(e, f.CMDX, false)
 			}
 		}
-		pre, vpre := e.Digest(), f.HookViewOf(e, app)
+		peer := f.AppTwin // the other vault app of the same sweep loops
+		if app == f.AppTwin {
+			peer = f.AppHarbor
+		}
+		pre, vpre, ppre := e.Digest(), f.HookViewOf(e, app), f.HookViewOf(e, peer)
 		res := f.runHook(e, c.Hook)
-		post, vpost := e.Digest(), f.HookViewOf(e, app)
+		post, vpost, ppost := e.Digest(), f.HookViewOf(e, app), f.HookViewOf(e, peer)
 		args := map[string]interface{}{"m": c.M, "hook": c.Hook, "app": c.App, "breaker": c.Breaker, "esm": c.Esm, "off": c.Off, "pm": c.Pm, "ref": ref[c.Hook]}
 		id := r.lg.Add(root, r.run, "Hook", args, rj(res), map[string]interface{}{"pre": pre, "post": post,
 			"seizedPre": vpre.Seized, "seizedPost": vpost.Seized, "aucPre": vpre.Auctions, "aucPost": vpost.Auctions,
-			"seizedNew": NewIn(vpre.SeizedID, vpost.SeizedID), "aucNew": NewIn(vpre.AucID, vpost.AucID)})
+			"seizedNew": NewIn(vpre.SeizedID, vpost.SeizedID), "aucNew": NewIn(vpre.AucID, vpost.AucID), "peerNew": NewIn(ppre.SeizedID, ppost.SeizedID)})
 		if !c.Breaker && c.Esm == "off" && len(c.Off) == 0 {
 			ref[c.Hook] = id
 			args["ref"] = id
@@ -394,6 +440,14 @@ func Main(args []string) int {
 		root := lg.Add(0, r.run, "State", map[string]interface{}{"k": k, "seed": *seed, "steps": *steps, "ops": ops}, map[string]interface{}{}, map[string]interface{}{"pre": s.Digest(), "post": s.Digest()})
 		r.execState(s, root, cells)
 	}
+	{
+		// the holey state: older positions removed, third parties opened new ones; the complete matrix runs on it
+		s := f.E.Branch()
+		ops := f.MakeHoley(s)
+		r.run = "h"
+		root := lg.Add(0, r.run, "State", map[string]interface{}{"k": -1, "seed": *seed, "steps": *steps, "ops": ops}, map[string]interface{}{}, map[string]interface{}{"pre": s.Digest(), "post": s.Digest()})
+		r.execState(s, root, cells)
+	}
 	if *probe {
 		for _, n := range lg.Nodes {
 			b, _ := json.Marshal(n)
@@ -416,6 +470,8 @@ func refOf(c Cell) Cell {
 		r.Signer = c.Holder
 	case "priv":
 		r.Chain, r.Sender = "comdex-1", c.Des
+	case "open":
+		r.Hole = false
 	case "ctl", "hook", "auc":
 		r.Breaker, r.Esm, r.Off, r.Pm = false, "off", []string{}, "na"
 	}
@@ -448,6 +504,8 @@ func replayMain(path string) int {
 	ops := []string{}
 	if k > 0 {
 		ops = f.RandomPrefix(s, sim.NewRng(seed*1000+k), int(steps))
+	} else if k < 0 {
+		ops = f.MakeHoley(s)
 	}
 	lg := &sim.Log{}
 	r := &runner{f: f, lg: lg, run: fmt.Sprintf("s%d", k)}
